@@ -223,8 +223,17 @@ def Cx.isCyc (c : Cx) (a : List Nat) : Bool :=
   | 54 => d.eq (d.mul (c.frb a 18) a) (c.frb a 9)
   | _ => false
 
-/-- a^(p^{n/2}) · a = 1 (what fpN_inv_cyc needs) -/
-def Cx.isUnitary (c : Cx) (a : List Nat) : Bool := c.d.isOne (c.d.mul (c.d.conj a) a)
+/-- a^(p^{n/2}) · a = 1 (what fpN_inv_cyc needs); for a quadratic top level a^(p^{n/2}) is the conjugate -/
+def Cx.isUnitary (c : Cx) (a : List Nat) : Bool :=
+  match c.d.levels with
+  | l :: _ => if l.deg == 2 then c.d.isOne (c.d.mul (c.d.conj a) a) else c.d.isOne (c.d.mul (c.frb a (c.n / 2)) a)
+  | [] => false
+
+/-- the inverse of a unitary element: the conjugate (quadratic top level) resp. a^(p^{n/2}) -/
+def Cx.unitaryInv (c : Cx) (a : List Nat) : List Nat :=
+  match c.d.levels with
+  | l :: _ => if l.deg == 2 then c.d.conj a else c.frb a (c.n / 2)
+  | [] => a
 
 def Cx.fmt (c : Cx) (a : List Nat) : String := c.d.fmt a
 
@@ -243,6 +252,62 @@ def pck12 : List Nat := [1, 2, 3, 5]
 def fp2Units (a : List Nat) : List (List Nat) := chunks 2 (a.length / 2) a
 
 def samePck12 (a b : List Nat) : Bool := pck12.all fun i => (fp2Units a).getD i [] == (fp2Units b).getD i []
+
+/-- the sextic layout of a level with compressed forms: size of a coefficient block (an element of the level n/6) and the
+    positions of g0 … g5 among the six blocks. fp12, fp18, fp48 are quadratic over cubic (block (i, j) ↦ w^(2j+i)), fp24 and
+    fp54 cubic over quadratic (block (i, j) ↦ w^(i+3j)); g_k is the coefficient of w^0, w^3, w^1, w^4, w^2, w^5. -/
+def cycLayout (n : Nat) : Option (Nat × List Nat) :=
+  match n with
+  | 12 | 18 | 48 => some (n / 6, [0, 4, 3, 2, 1, 5])
+  | 24 | 54 => some (n / 6, [0, 1, 2, 3, 4, 5])
+  | _ => none
+
+/-- blocks g0 … g5 of an element -/
+def gBlocks (n : Nat) (a : List Nat) : Option (List (List Nat)) := do
+  let (us, pos) ← cycLayout n
+  let u := chunks us 6 a
+  some (pos.map fun i => u.getD i [])
+
+def ofGBlocks (n : Nat) (g : List (List Nat)) : Option (List Nat) := do
+  let (_, pos) ← cycLayout n
+  some ((List.range 6).map (fun blk => g.getD ((pos.findIdx? (· == blk)).getD 0) [])).flatten
+
+/-- the constant ξ with w⁶ = ξ in the block field: fp2_mul_nor(1), fp3_mul_nor(1), or the generator of fp4 / fp8 / fp9 -/
+def Env.sexticConst (e : Env) (n : Nat) : Option (Desc × List Nat) := do
+  let du ← e.tower (n / 6)
+  match n with
+  | 12 => some (du, e.xi)
+  | 18 => some (du, e.xi3)
+  | 24 | 48 | 54 => some (du, du.gen)
+  | _ => none
+
+/-- positions (block indices) the compressed squaring writes: g2 … g5 -/
+def pckBlocks (n : Nat) : List Nat := match cycLayout n with
+  | some (_, pos) => pos.drop 2
+  | none => []
+
+def sameCompressed (n : Nat) (a b : List Nat) : Bool :=
+  match gBlocks n a, gBlocks n b with
+  | some x, some y => x.drop 2 == y.drop 2
+  | _, _ => false
+
+def compressedIsZero (n : Nat) (a : List Nat) : Bool :=
+  match gBlocks n a with
+  | some x => (x.drop 2).all fun blk => blk.all (· == 0)
+  | none => false
+
+/-- Karabina's decompression for any of these levels, in the specification's arithmetic of the block field -/
+def specBack (e : Env) (n : Nat) (a : List Nat) : Option (List Nat) := do
+  let (du, xi) ← e.sexticConst n
+  let g ← gBlocks n a
+  let g2 := g.getD 2 []; let g3 := g.getD 3 []; let g4 := g.getD 4 []; let g5 := g.getD 5 []
+  let k := fun (m : Nat) (x : List Nat) => du.mul (du.ofNat m) x
+  let g1 ← (if !du.isZero g2 then
+      (du.inv? (k 4 g2)).map fun i => du.mul (du.sub (du.add (du.mul xi (du.sqr g5)) (k 3 (du.sqr g4))) (k 2 g3)) i
+    else if !du.isZero g3 then (du.inv? g3).map fun i => du.mul (k 2 (du.mul g4 g5)) i
+    else none)
+  let g0 := du.add (du.mul xi (du.sub (du.add (k 2 (du.sqr g1)) (du.mul g2 g5)) (k 3 (du.mul g3 g4)))) du.one
+  ofGBlocks n [g0, g1, g2, g3, g4, g5]
 
 /-- Karabina's decompression written in the specification's own arithmetic (Lemmas/Fpx.lean: `cyc_g1`, `cyc_g1_exc`, `cyc_g0`
     show that a non-zero cyclotomic element with g2 ≠ 0 or g3 ≠ 0 is determined by g2..g5 through these formulas):
@@ -336,7 +401,11 @@ def handleOp (e : Env) (fname : String) (n : Nat) (op : String) (d : Desc) (l : 
       some { model := got, spec := if (d.inv? a).isNone then [got] else [((d.inv? a).map fmt).getD "?"], tags := ["inv-err"] }
   | "inv_cyc", [a] =>
     let a ← el a
-    if c.isUnitary a then some { model := fmt (d.conj a), spec := [fmt (d.conj a)], tags := ["unitary"] }
+    if c.isUnitary a then
+      let v := c.unitaryInv a
+      -- defining property of the specification's answer
+      let ok := d.isOne (d.mul a v)
+      some { model := if n <= 16 then fmt (d.conj a) else got, spec := if ok then [fmt v] else ["SPEC-INCONSISTENT"], tags := ["unitary"] }
     else some (unspecified "pre-false")
   | "inv_sim", k :: rest =>
     let k ← k.toNat?
@@ -371,12 +440,12 @@ def handleOp (e : Env) (fname : String) (n : Nat) (op : String) (d : Desc) (l : 
     let a ← el a; let k ← parseHexInt k
     if !c.isCyc a then some (unspecified "pre-false") else
     let v := d.pow a k.natAbs
-    some { model := got, spec := [fmt (if k < 0 then d.conj v else v)], tags := ["exp_cyc"] }
+    some { model := got, spec := [fmt (if k < 0 then c.unitaryInv v else v)], tags := ["exp_cyc"] }
   | "exp_cyc_sim", [a, k, b, m] =>
     let a ← el a; let k ← parseHexInt k; let b ← el b; let m ← parseHexInt m
     let b := if same then a else b
     if !(c.isCyc a && c.isCyc b) then some (unspecified "pre-false") else
-    let pw := fun (x : List Nat) (k : Int) => let v := d.pow x k.natAbs; if k < 0 then d.conj v else v
+    let pw := fun (x : List Nat) (k : Int) => let v := d.pow x k.natAbs; if k < 0 then c.unitaryInv v else v
     some { model := got, spec := [fmt (d.mul (pw a k) (pw b m))], tags := ["exp_cyc_sim"] }
   | "exp_cyc_sps", [a, sg, bs] =>
     let a ← el a; let sg ← sg.toInt?
@@ -386,7 +455,7 @@ def handleOp (e : Env) (fname : String) (n : Nat) (op : String) (d : Desc) (l : 
     let k : Int := bs.foldl (fun acc b => acc + (if b < 0 then -1 else 1) * (2 : Int) ^ b.natAbs) 0
     let k := if sg < 0 then -k else k
     let v := d.pow a k.natAbs
-    some { model := got, spec := [fmt (if bs.isEmpty then d.one else if k < 0 then d.conj v else v)], tags := ["exp_cyc_sps"] }
+    some { model := got, spec := [fmt (if bs.isEmpty then d.one else if k < 0 then c.unitaryInv v else v)], tags := ["exp_cyc_sps"] }
   -- cyclotomic subgroup -------------------------------------------------------------------------------------------------
   | "test_cyc", [a] => let a ← el a; some (cls (if c.isCyc a then "r=1" else "r=0") got)
   | "conv_cyc", [a] =>
@@ -411,17 +480,31 @@ def handleOp (e : Env) (fname : String) (n : Nat) (op : String) (d : Desc) (l : 
     some { model := m, spec := [fmt (d.sqr a)],
            tags := ["sqr_cyc"] ++ (if n == 12 then [if relCyc12 e a then "rel-ok" else "REL-MISMATCH"] else []) }
   | "sqr_pck", [a] | "sqr_pck_basic", [a] | "sqr_pck_lazyr", [a] =>
-    -- the harness presets the destination with the operand: the coefficients the function does not write keep it
+    -- the harness presets the destination with the operand: the coefficient blocks the function does not write keep it
     let a ← el a
-    if n != 12 then none else
+    let (us, _) ← cycLayout n
     if !c.isCyc a then some (unspecified "pre-false") else
     let sq := d.sqr a
-    let want := ((fp2Units a).zipIdx.map fun (u, i) => if pck12.contains i then (fp2Units sq).getD i [] else u).flatten
-    let m : Fp12 (V2 Nat) := fp12SqrPck (fp2Ops e.base e.qnr) e.nor2 (Flat.ofFlat a) (Flat.ofFlat a)
-    some { model := fmt (Flat.toFlat m), spec := [fmt want], tags := ["sqr_pck"] }
+    let ua := chunks us 6 a
+    let usq := chunks us 6 sq
+    let want := ((List.range 6).map fun i => if (pckBlocks n).contains i then usq.getD i [] else ua.getD i []).flatten
+    let m : String := if n == 12 then
+        fmt (Flat.toFlat (fp12SqrPck (fp2Ops e.base e.qnr) e.nor2 (Flat.ofFlat a : Fp12 (V2 Nat)) (Flat.ofFlat a)))
+      else got
+    some { model := m, spec := [fmt want], tags := ["sqr_pck" ++ toString n] }
   | "back_cyc", [a] =>
     let a ← el a
-    if n != 12 then none else
+    if n != 12 then
+      -- the same decompression over the block field of fp18 / fp24 / fp48 / fp54 (not modelled: specification only)
+      if (cycLayout n).isNone then none else
+      if compressedIsZero n a then some { model := got, spec := [fmt d.one], tags := ["back_cyc-identity"] } else
+      match specBack e n a with
+      | none => some (unspecified "pre-false")
+      | some cand =>
+        if !c.isCyc cand then some (unspecified "pre-false") else
+        some { model := got, spec := [fmt cand],
+               tags := [if ((gBlocks n a).getD []).getD 2 [] |>.all (· == 0) then "back_cyc-g2zero" else "back_cyc" ++ toString n] }
+    else
     -- specification: the cyclotomic element with these four coefficients (unique when g2 ≠ 0 or g3 ≠ 0; Karabina's
     -- formulas in the specification's arithmetic give the only candidate). No such element: unspecified.
     let m : List Nat := Flat.toFlat (fp12BackCyc (fp2Ops e.base e.qnr) e.nor2 (d.isOne a) (Flat.ofFlat a))
